@@ -661,6 +661,31 @@ Proof.
     now rewrite set_content_same.
 Qed.
 
+(* construct, write, parse: what the parsed document exposes in terms of the tree GIVEN *)
+Lemma parsed_tree : forall c a d root, sr_init c a = Ok d -> single_root (a_content a) = Some root ->
+  exists d', srread d = Ok (c, d') /\
+    descendants (d_content d') = descendants root /\
+    i_vt (d_content d') = CONTAINER /\ i_tag (d_content d') = i_tag root /\ i_rel (d_content d') = 0 /\
+    (forall k, root_key k = true -> attr_get k (i_attrs (d_content d')) = attr_get k (i_attrs root)) /\
+    is_report (d_content d') = is_report root /\
+    (root_typed root -> d' = d /\ d_content d' = root).
+Proof.
+  intros c a d root H HR. pose proof (tree_copied _ _ _ H) as HT. rewrite HR in HT. inversion HT as [E].
+  exists (set_content d (reroot (d_content d))). split; [exact (srread_spec _ _ _ H)|].
+  destruct (reroot_keeps (d_content d)) as [K1 [K2 [K3 [K4 [K5 K6]]]]].
+  assert (HV : i_vt (d_content d) = CONTAINER).
+  { pose proof H as H2. apply sr_init_iff in H2. destruct H2 as [r0 [cu [[_ [_ [_ [_ [_ [G6 _]]]]]] [-> _]]]]. exact G6. }
+  replace (d_content (set_content d (reroot (d_content d)))) with (reroot (d_content d))
+    by (destruct d; reflexivity).
+  subst root.
+  split; [exact K4|]. split; [congruence|]. split; [exact K2|].
+  split; [destruct (d_content d); reflexivity|]. split; [exact K5|]. split; [exact K6|].
+  intros T. assert (ER : reroot (d_content d) = d_content d).
+  { apply reroot_iff. split; [|exact T].
+    apply sr_init_iff in H. destruct H as [r0 [cu [[_ [_ [_ [_ [G5 _]]]]] [-> _]]]]. exact G5. }
+  rewrite ER. split; [apply set_content_same|reflexivity].
+Qed.
+
 (* ---- key object documents ----------------------------------------------------------------- *)
 Lemma ko_init_inv : forall ev ts root d, ko_init ev ts root = Ok d ->
   ev <> [] /\ ts = true /\ d_content d = root /\ d_other d = [] /\ d_cls d = ko_code /\
